@@ -9,17 +9,23 @@ from mc.ref import refann
 LETTERS = "ACGUT"
 
 
-def build_structure(residue_specs):
-    """residue_specs: [(chain, number, icode, resname, letter, [(atom name, xyz)])] -> Structure3D built directly from objects."""
+def build_residues(residue_specs, model=1):
     from rnapolis.common import ResidueAuth
-    from rnapolis.tertiary import Atom, Residue3D, Structure3D
+    from rnapolis.tertiary import Atom, Residue3D
 
     res = []
     for chain, num, icode, rn, letter, atoms in residue_specs:
         auth = ResidueAuth(chain, num, icode, rn)
-        al = tuple(Atom(None, None, auth, 1, n, float(p[0]), float(p[1]), float(p[2]), 1.0) for n, p in atoms)
-        res.append(Residue3D(None, auth, 1, letter, al))
-    return Structure3D(res)
+        al = tuple(Atom(None, None, auth, model, n, float(p[0]), float(p[1]), float(p[2]), 1.0) for n, p in atoms)
+        res.append(Residue3D(None, auth, model, letter, al))
+    return res
+
+
+def build_structure(residue_specs):
+    """residue_specs: [(chain, number, icode, resname, letter, [(atom name, xyz)])] -> Structure3D built directly from objects."""
+    from rnapolis.tertiary import Structure3D
+
+    return Structure3D(build_residues(residue_specs))
 
 
 def rkey(nt):
